@@ -1018,3 +1018,35 @@ def no_pattern_match_in_writes(prog, cg, eff, chk, rid):
     if n < 20:
         chk.fail_broken('%s: only %d DELETE / UPDATE statements found' % (rid, n))
     return n
+
+
+def ddl_only_in_creators(prog, cg, eff, chk, rid):
+    """What a created library contains is what the creator class of its version executes - nothing else: no function
+    outside the schema creator classes (src/djinterop/engine/schema/) issues CREATE / ALTER / DROP.  An extra
+    trigger or index added by the library class after `creator->create(db)` is in no reference dump."""
+    n = 0
+    outside = 0
+    for f in prog.functions.values():
+        if f.body is None or f.is_pattern or not prog.in_repo(f.file):
+            continue
+        in_schema = '/engine/schema/' in (f.file or '')
+        for s_ in eff.sites(f):
+            st = s_.stored_in
+            text = ((st.text() if st is not None else '') or '').strip()
+            head = text.split(' ')[0].upper() if text else ''
+            if head not in ('CREATE', 'ALTER', 'DROP'):
+                continue
+            n += 1
+            if in_schema:
+                continue
+            outside += 1
+            short = '::'.join((f.qualname or '').split('::')[-2:])
+            chk.violation(rid, '%s|issues %s outside the creator classes' % (short, ' '.join(text.upper().split(' ')[:2])),
+                          locstr(s_.node),
+                          '%s executes `%s`: an object the creator class of the version does not define is in no reference '
+                          'dump of that version' % (short, text[:70]))
+    if n < 100:
+        chk.fail_broken('%s: only %d DDL statements found in the repository' % (rid, n))
+    if not outside:
+        chk.ok(rid, '%d DDL statements, all in the schema creator classes' % n, site='ddl')
+    return n
